@@ -521,8 +521,8 @@ void c18_case(Tape& t, Ctx& ctx) {
   static const double pinned[] = {100, 50, 30, 20, 10, 4};
   double ratio = t.chance(1, 2) ? pinned[t.range(0, 5)] : std::exp2(t.range(0, 53) / 8.0);
   if (ratio > 100) ratio = 100;
-  double tmin = std::exp2(-t.range(0, 53) / 8.0);  // min T in [0.01, 1]
-  if (tmin < 0.01) tmin = 0.01;
+  double tmin = std::exp2(-t.range(0, 80) / 8.0);  // min T in [1e-3, 1]: everything the optimizer's validity rule accepts
+  if (tmin < 1e-3) tmin = 1e-3;
   int shape = t.range(0, 4);
   static const char* names[] = {"one-short-among-long", "one-long-among-short", "alternating", "geometric-ramp", "log-uniform"};
   c.T.assign(N, tmin);
@@ -585,8 +585,8 @@ void c18g_case(Tape& t, Ctx& ctx) {
   const int N = c.N;
   static const double caps[] = {100, 64, 50, 40, 36, 32, 28, 24, 20, 16};
   double cap = caps[t.range(0, 9)];
-  double tmin = std::exp2(-t.range(0, 40) / 8.0);
-  if (tmin < 0.03125) tmin = 0.03125;
+  double tmin = std::exp2(-t.range(0, 80) / 8.0);
+  if (tmin < 1e-3) tmin = 1e-3;
   std::vector<double> u(N, 1.0);
   int shape = t.range(0, 3);
   if (shape == 0) u[t.range(0, N - 1)] = 0.0;                       // one short among long
